@@ -3,6 +3,7 @@
 package verifmodel
 
 import (
+	"runtime"
 	"errors"
 	"io"
 	"net/http"
@@ -98,6 +99,7 @@ func (b *Body) Close() error {
 }
 
 func HTTPClientDo(c *http.Client, req *http.Request) (*http.Response, error) {
+	runtime.Gosched() // network I/O: every interleaving with the other goroutines is possible here
 	i := DoCalls
 	DoCalls++
 	if i >= len(DoScript) {
